@@ -17,7 +17,7 @@ ANCHORS = ['numdifftools.multicomplex:Bicomplex.%s' % n for n in (
     'sin cos tan cot sec csc sinh cosh tanh coth sech csch exp exp2 expm1 log log2 log10 log1p sqrt arcsin arccos '
     'arctan arccosh arcsinh arctanh __add__ __sub__ __rsub__ __mul__ __div__ __rdiv__ __pow__ __rpow__ __neg__ '
     'mod_c _arg_c arg_c').split()]
-MIN_COUNTERS = dict(quick={'asserted:unary': 6000, 'asserted:binary': 1500, 'asserted:pow': 1500,
+MIN_COUNTERS = dict(quick={'asserted:multicomplex_components': 600, 'asserted:unary': 6000, 'asserted:binary': 1500, 'asserted:pow': 1500,
                            'asserted:compose': 1000, 'asserted:reduction_z2_is_zero': 500,
                            'asserted:multicomplex_pattern': 500, 'via_ufunc': 2000, 'array_arguments': 1000},
                     thorough={'asserted:unary': 300000})
@@ -39,6 +39,7 @@ ASSUMPTIONS = ['componentwise |observed - model| <= C*eps*(|Z1|+|Z2| + cond), co
                'base points: function-specific real domains away from branch points and poles (margins in DOMAIN table)']
 C = 256.0
 EPS = 2.0 ** -52
+MC_TOL = 1e-6       # relative tolerance of the component-wise (imag1, imag12) clause: far above rounding, far below a lost component
 
 FUNCS = ('sin cos tan cot sec csc sinh cosh tanh coth sech csch exp exp2 expm1 log log2 log10 log1p sqrt arcsin '
          'arccos arctan arccosh arcsinh arctanh').split()
@@ -124,6 +125,14 @@ def cases(rng, tier, shard, nshards):
                 pattern = 'multicomplex'
             yield dict(kind='unary', f=f, x=xs, h=hs, size=size, pattern=pattern,
                        via='ufunc' if (f in NP_UFUNC and rng.random() < 0.5) else 'method')
+        elif u < 0.6:
+            # the consequence clause: imag1 and imag12 of f(x + i h + j h), component by component, for the step sizes the
+            # multicomplex method actually takes (tiny) and larger ones; unary functions, powers and quotients
+            f = (list(FUNCS) + ['pow2.5', 'pow3', 'pow-2', 'recip', 'x_over_1px2'])[(i + shard) % (len(FUNCS) + 5)]
+            x = draw_x(rng, f if f in FUNCS else 'powr')
+            if f in ('tanh', 'coth', 'sech', 'csch') and abs(x) > 300:
+                x = float(np.sign(x) * rng.uniform(0.2, 5))
+            yield dict(kind='mc_components', f=f, x=x, hrel=float(10.0 ** rng.uniform(-15, -5)), as_array=bool(rng.random() < 0.3))
         elif u < 0.7:
             op = BINOPS[i % len(BINOPS)]
             x1, x2 = float(rng.uniform(-5, 5)), float(rng.choice([-1, 1]) * rng.uniform(0.2, 5))
@@ -138,6 +147,10 @@ def cases(rng, tier, shard, nshards):
                 x, e = float(rng.uniform(0.2, 6)), float(rng.choice([0.5, 1.5, -0.5, 2.5, 0.3333, 2.0, 3.0, rng.uniform(-3, 3)]))
                 if rng.random() < 0.15:
                     x = float(10.0 ** rng.uniform(-30, -14))
+                elif rng.random() < 0.2 and e > 0:
+                    hz = float(x * 10.0 ** rng.uniform(-8, -3))
+                    yield dict(kind='pow', pk=pk, x=x, e=e, h=[hz, hz, 0.0], he=[0.0, 0.0, 0.0], with_zero=True)
+                    continue
             elif pk == 'real_intvalued':
                 # a float exponent with an integer value goes through exp(e log z) like any real power, but z**e is single-valued:
                 # negative bases are in the domain (also with z2 = 0, where log needs the +-pi of the principal branch)
@@ -335,6 +348,73 @@ def run_case(case, ctx):
         ctx.count('asserted:binary')
         if compare(ctx, case, op, complex(res.z1), complex(res.z2), Z1, Z2, cond) and all(h1):
             ctx.nontrivial(_nontrivial_key(op, h1))
+    elif kind == 'mc_components':
+        f, x, hrel = case['f'], case['x'], case['hrel']
+        h = hrel * (max(abs(x), 1e-3) if abs(x) >= 1e-12 else abs(x))
+        special = {'pow2.5': (lambda z: z ** 2.5, lambda t: m.power(t, m.mpf(2.5))), 'pow3': (lambda z: z ** 3, lambda t: t ** 3),
+                   'pow-2': (lambda z: z ** -2, lambda t: t ** -2), 'recip': (lambda z: 1.0 / z, lambda t: 1 / t),
+                   'x_over_1px2': (lambda z: z / (1.0 + z * z), lambda t: t / (1 + t * t))}
+        if f in special:
+            lib, g = special[f]
+        else:
+            lib, g = (lambda z: getattr(z, f)()), mp_fun(f)
+        try:
+            with np.errstate(all='ignore'):
+                if case.get('as_array'):
+                    # (for functions defined at 0 the neighbour is the non-invertible element 0 + i h + j h)
+                    x_other = 0.0 if f in ('pow2.5', 'sqrt', 'pow3') else x
+                    res = lib(bic(np.array([x_other, x]), np.array([[h, h, 0.0]] * 2)))
+                    z1, z2 = complex(np.asarray(res.z1)[1]), complex(np.asarray(res.z2)[1])
+                else:
+                    res = lib(bic(x, [h, h, 0.0]))
+                    z1, z2 = complex(res.z1), complex(res.z2)
+        except Exception as exc:
+            ctx.reject('raised', observed=repr(exc), function=f, base_point=[x])
+            return
+        try:
+            f0, f1, f2 = (complex(m.diff(g, m.mpf(x), k)) for k in (0, 1, 2))
+        except Exception:
+            ctx.count('skipped_reference_derivative_failed')
+            return
+        xs_ = max(abs(x), 1.0) if abs(x) >= 1e-12 else abs(x)
+        s1 = abs(f1) + abs(f0) / xs_                     # natural sizes of the two derivatives at this point
+        s2 = abs(f2) + abs(f1) / xs_ + abs(f0) / xs_ ** 2
+        d1, d2 = z1.imag / h, z2.imag / (h * h)
+        trunc = hrel ** 2 * 100.0
+        ctx.count('asserted:multicomplex_components')
+        r1 = abs(d1 - f1) / ((MC_TOL + trunc) * s1) if s1 > 0 else 0.0
+        r2 = abs(d2 - f2) / ((MC_TOL + trunc) * s2) if s2 > 0 else 0.0
+        ctx.maximum('imag1_rel_err/tol:%s' % f, r1)
+        ctx.maximum('imag12_rel_err/tol:%s' % f, r2)
+        if not (r1 <= 1 and r2 <= 1):
+            ctx.reject('multicomplex_component_differs_from_derivative', observed=[d1, d2], expected=[f1, f2],
+                       detail=dict(f=f, x=x, h=h, hrel=hrel, r1=r1, r2=r2), function=f, base_point=[x],
+                       which=('imag12' if r2 > 1 else 'imag1'), result_is_nan=bool(not (np.isfinite(d1) and np.isfinite(d2))),
+                       relative_step_below_1e_7=bool(hrel < 1e-7))
+            return
+        ctx.nontrivial(('mc', f, int(np.floor(np.log10(hrel)))))
+    elif kind == 'pow' and case.get('with_zero'):
+        # an array that also holds a non-invertible element (x = 0 with the equal multicomplex steps h (i + j)): the ordinary
+        # elements next to it are powers like any other
+        pk, x, e = case['pk'], case['x'], case['e']
+        hx = abs(case['h'][0]) or 1e-6 * abs(x)
+        xs = np.array([0.0, x, 1.5 * x])
+        hs = np.array([[hx, hx, 0.0]] * 3)
+        try:
+            with np.errstate(all='ignore'):
+                res = bic(xs, hs) ** e
+        except Exception as exc:
+            ctx.reject('raised', observed=repr(exc), function='pow:' + pk + ':array_with_zero')
+            return
+        ctx.count('pow_arrays_with_a_non_invertible_element')
+        fn = lambda p_: m.power(p_, m.mpf(e))
+        for k in (1, 2):
+            a, b = idem(float(xs[k]), list(hs[k]))
+            Z1, Z2 = from_idem(fn(a), fn(b))
+            cond = (numcond(fn, [a]) + numcond(fn, [b])) * (1 + float(abs(m.log(a))) + float(abs(m.log(b))))
+            ctx.count('asserted:pow')
+            if not compare(ctx, case, 'pow:' + pk + ':array_with_zero', complex(res.z1[k]), complex(res.z2[k]), Z1, Z2, cond):
+                return
     elif kind == 'pow':
         pk, x, e, h, he = case['pk'], case['x'], case['e'], case['h'], case['he']
         try:
@@ -435,6 +515,9 @@ def classify(wit):
     f = wit.get('facts') or {}
     if wit.get('check') == 'differs_from_holomorphic_extension' and f.get('result_is_nan') and f.get('quotient_overflow'):
         return 'bicomplex-quotient-overflow'
+    if wit.get('check') == 'multicomplex_component_differs_from_derivative' and f.get('function') in ('arctan', 'arcsin', 'arccos') \
+            and f.get('which') == 'imag12' and f.get('relative_step_below_1e_7') and not f.get('result_is_nan'):
+        return 'multicomplex-log-formula-cancellation'
     return None
 
 
